@@ -11,6 +11,8 @@ Require Import V.Proofs.ConductorProofs.
 Require Import V.Proofs.ConductorClose.
 Require Import V.Oracle.C09Oracle.
 Require Import V.Oracle.C10Oracle.
+Require Import V.Proofs.C09OracleProofs.
+Require Import V.Proofs.C10OracleProofs.
 Open Scope Z_scope.
 
 (* ---- C10_total: whatever the state and the operation - any driver event with any field values, an overrun or
@@ -126,6 +128,21 @@ Theorem C10_close_handler_once : forall c ops s, inv s ->
 Proof. intros. apply close_handler_once. auto. Qed.
 Print Assumptions C10_close_handler_once.
 
+(* ---- the oracle on the model ---- *)
+(* Full statement (the three judges of Oracle/C10Oracle.v together):
+     forall c0 now0 tdrv tis ops, Forall tick_ok ops ->
+       holds_c10 c0 now0 tdrv tis ops (run_obs c0 now0 tdrv tis ops) = true.
+   Proved below for the core judge (totality, fault reports, close handler at most once / fired after close, API and
+   handles after the close) over every history whose clock does not run backwards. Missing: the two sequential judges
+   c10_imgs_run (each announced image gets exactly one unavailable callback) and c10_ctrs_run (each live counter gets
+   exactly one unavailable callback at the close) are not yet connected to the model by a simulation; what they
+   check is proved about the model directly in C10_close_callbacks (per close) and C10_close_handler_once, and they
+   are evaluated on the model's observations of every generated history in each run of the check. *)
+Theorem C10_oracle_model_partial : forall c0 now0 tdrv tis ops,
+  Forall tick_ok ops -> c10_core_run c0 tdrv tis (winit now0) ops (run_obs c0 now0 tdrv tis ops) = true.
+Proof. exact c10_core_model. Qed.
+Print Assumptions C10_oracle_model_partial.
+
 (* ---- the hypotheses are satisfiable: a history with faults, every kind of resource and a close ---- *)
 Definition ex_faults : list op :=
   [SetDriverHb 1000000; SetHbCounter 1; Add KPub 1 1 0; Add KSub 2 2 0; Add KCtr 3 4 5;
@@ -146,8 +163,9 @@ Example C10_example_run :
   /\ nth 21 (map (fun x : out => snd (fst x)) (run_obs 0 1000000 10000 5000 ex_faults)) [] =
      [CbErr EServiceTimeout]
   /\ n_close (all_cbs (run_obs 0 1000000 10000 5000 ex_faults)) = 1%nat
-  /\ holds_c10 0 1000000 10000 5000 ex_faults (run_obs 0 1000000 10000 5000 ex_faults) = true.
-Proof. repeat split; vm_compute; reflexivity. Qed.
+  /\ holds_c10 0 1000000 10000 5000 ex_faults (run_obs 0 1000000 10000 5000 ex_faults) = true
+  /\ Forall tick_ok ex_faults.
+Proof. repeat split; try (vm_compute; reflexivity). repeat constructor; cbn; lia. Qed.
 
 (* the oracle is not vacuous: it rejects the observations of the unrepaired implementation *)
 Example C10_oracle_rejects_faulty_observations :
